@@ -424,6 +424,25 @@ class Machine(Interp):
             sig = (name,)
         else:
             sig = self.call_sig(st, name, args)
+        if name in self.recursive_fns and sig not in st.stack and sum(1 for s_ in st.stack if s_[0] == name) >= 3:
+            # widening: a word-sized cell of an argument object that takes a new constant at every level (a statistics counter
+            # bumped before the function calls itself) would keep the levels apart for ever; from the fourth level on such
+            # cells are forgotten (any value of their width), which lets the signature - and with it the cut below - converge
+            prev = [s_ for s_ in st.stack if s_[0] == name][-1]
+            if len(prev) == len(sig):
+                widened = False
+                for i_ in range(1, len(sig) - 1):
+                    a_, b_ = sig[i_], prev[i_]
+                    if isinstance(a_, tuple) and len(a_) == 2 and a_[0] == 'ptr' and a_ == b_ and isinstance(sig[i_ + 1], tuple) and isinstance(prev[i_ + 1], tuple):
+                        cur_c, old_c = dict(sig[i_ + 1]), dict(prev[i_ + 1])
+                        o_ = st.objs.get(a_[1])
+                        for k_ in cur_c:
+                            if k_ in old_c and old_c[k_] != cur_c[k_] and o_ is not None and k_ in o_.cells and o_.cells[k_][0] >= 4:
+                                w_ = o_.cells[k_][0]
+                                o_.cells[k_] = (w_, ('sym', st.fresh('widened:%s' % name), 0, (1 << (8 * w_)) - 1))
+                                widened = True
+                if widened:
+                    sig = self.call_sig(st, name, args)
         if name in self.recursive_fns and sig in st.stack:
             # recursive re-entry with the same abstract arguments: least fix-point of a
             # tail call = the non-recursive exits; this path contributes nothing new
